@@ -121,14 +121,14 @@ static std::string run_reader(const std::string& kind, std::string data, int opt
 }
 
 static std::string guarded(const std::string& kind, std::string data, int opt) {
-  alarm(10);
+  hv::cpu_alarm(10);
   std::string r;
   try {
     r = run_reader(kind, std::move(data), opt);
   } catch (std::exception&) {
     r = "EXC";
   }
-  alarm(0);
+  hv::cpu_alarm(0);
   // canonical outcome class only (details of OK results are not compared with anything)
   return r.compare(0, 2, "OK") == 0 ? "OK" : r;
 }
@@ -200,7 +200,7 @@ static std::string handle(const std::string& cmd, const std::string& args) {
       if (to_ll(w.at(3)) % 7 == 3)        // sometimes the whole column
         for (size_t r = 0; r < nrows; ++r) loop.values[r * loop.width() + pr.second] = val;
     }
-    alarm(20);
+    hv::cpu_alarm(20);
     std::string r = "OK";
     try {
       if (kind == "refln") {
@@ -221,7 +221,7 @@ static std::string handle(const std::string& cmd, const std::string& args) {
         }
       }
     } catch (std::exception&) { r = "EXC"; }
-    alarm(0);
+    hv::cpu_alarm(0);
     return r;
   }
   if (cmd == "gzfile") {       // gzfile <cif|json|st|pdb> <path> <mode> <seed>: corrupted gzip container through the *_gz readers
@@ -254,7 +254,7 @@ static std::string handle(const std::string& cmd, const std::string& args) {
                        (kind == "cif" ? ".cif.gz" : kind == "json" ? ".json.gz" : kind == "pdb" ? ".pdb.gz" : ".ent.gz");
     if (kind == "st") path = "/tmp/verif_gzr_" + std::to_string((int) getpid()) + (rng.next() % 2 ? ".cif.gz" : ".pdb.gz");
     { std::ofstream o(path, std::ios::binary); o.write(gz.data(), (std::streamsize) gz.size()); }
-    alarm(20);
+    hv::cpu_alarm(20);
     std::string r = "OK";
     try {
       if (kind == "cif") read_cif_gz(path, (int) (rng.next() % 3));
@@ -262,7 +262,7 @@ static std::string handle(const std::string& cmd, const std::string& args) {
       else if (kind == "pdb") read_pdb_gz(path);
       else read_structure_gz(path);
     } catch (std::exception&) { r = "EXC"; }
-    alarm(0);
+    hv::cpu_alarm(0);
     std::remove(path.c_str());
     return r;
   }
@@ -332,6 +332,6 @@ static std::string handle(const std::string& cmd, const std::string& args) {
 }
 
 int main() {
-  signal(SIGALRM, on_alarm);
+  hv::install_alarm_handler(on_alarm);
   return hv::serve(handle);
 }
